@@ -103,6 +103,12 @@ def cg(
         # update estimates of the solution and the residual
         (operator_conjugate_vector,) = operator(conjugate_vector)
         alpha = residual_norm_squared / (torch.vdot(conjugate_vector.flatten(), operator_conjugate_vector.flatten()))
+
+        # a step length that is not finite (no curvature along the search direction, or the products under- or overflow
+        # far past convergence while the residual is not exactly zero yet): return the current solution
+        if not torch.isfinite(alpha):
+            return solution
+
         solution = solution + alpha * conjugate_vector
         residual = residual - alpha * operator_conjugate_vector
 
